@@ -113,6 +113,7 @@ let () = read_lines (fun l ->
        | 'i' -> exec w (notify_packet (bytes_of_hex arg) znow) (fun b -> Printf.sprintf "=%d" (b2i b))
        | 'N' -> if !pend <> [] then begin let i = take 0 in deliver i (fun b -> Printf.sprintf "%d=%d" i (b2i b)) end else add "=x"
        | 'X' -> if !pend <> [] then begin let i = take 0 in add (string_of_int i) end else add "=x"
+       | 'Z' -> let k = List.length !pend in pend := []; add (string_of_int k)
        | 'D' -> if !pend <> [] then begin let i = take (int_of_string rest1 mod List.length !pend) in deliver i (fun b -> Printf.sprintf "%d=%d" i (b2i b)) end else add "=x"
        | 'U' -> if !hist <> [] then begin let i = List.nth !hist (int_of_string rest1 mod List.length !hist) in deliver i (fun b -> Printf.sprintf "%d=%d" i (b2i b)) end else add "=x"
        | 'Q' ->
